@@ -23,10 +23,10 @@ def with_variants(jobs, tier: str):
     keep = slice_keep(tier)
     base = sorted((j for j in jobs if tier != "quick" or keep(j)), key=lambda j: j["id"])
     # evenly spaced sub-slices: <= VT_V1_CAP programs get the syntactic, <= VT_V2_CAP the semantic variants
-    # (quick 200 / 60 of the slice, thorough 3000 / 400 of all programs)
+    # (quick 200 / 60 of the slice, thorough 1500 / 150 of all programs)
     quick = tier == "quick"
-    base1 = _spread(base, int(os.environ.get("VT_V1_CAP", "200" if quick else "3000")))
-    base2 = _spread(base, int(os.environ.get("VT_V2_CAP", "60" if quick else "400")))
+    base1 = _spread(base, int(os.environ.get("VT_V1_CAP", "200" if quick else "1500")))
+    base2 = _spread(base, int(os.environ.get("VT_V2_CAP", "60" if quick else "150")))
     return dedupe(chain(jobs, mutate.variants(base1), mutate.variants2(base2)))
 
 
@@ -42,7 +42,7 @@ def family_main(prop: str, tier: str, seed: int, jobs, rule: str, bounds: dict, 
              "doubly negated aggregates and conditional literals, function / arithmetic tuple terms, mirrored comparisons, "
              "one-line layout) and the semantic variants (doubly negated literals, an extra definition / an input declaration for "
              "every derived predicate, alpha-renaming clashes, variable priorities, twin objectives) of a deterministic, evenly "
-             "spaced sub-family (quick: <= 200 / 60 programs of the slice, thorough: <= 3000 / 400 of all programs).") if bounds.get(
+             "spaced sub-family (quick: <= 200 / 60 programs of the slice, thorough: <= 1500 / 150 of all programs).") if bounds.get(
         "variants") else ""
     agg = driver.Aggregate()
     driver.run_pool(jobs, seed, agg.add)
